@@ -150,6 +150,28 @@ def pixel_oracle(qm, cells, shape, case, site):
     if [cn.indent_canon(g) for g in qm.group] != before:
         viol("map-changes-curve", "get_qmap", "computing the maps changed "
              "the state of a curve (fit, columns or remembered rating)")
+    # the caller owns the arrays it was handed: editing them in place must
+    # not change what the next request returns
+    try:
+        keep = {k: np.array(m, copy=True) for k, (m, _) in vals.items()}
+        for k, (m, _) in vals.items():
+            if isinstance(m, np.ndarray) and m.flags.writeable:
+                m *= 1e-3
+        again = qmap_values(qm)
+        for k, (m, _) in vals.items():
+            if isinstance(m, np.ndarray) and m.flags.writeable:
+                m[...] = keep[k]              # (back, for the checks below)
+        for k in vals:
+            if not np.array_equal(again[k][0], expected[k][0],
+                                  equal_nan=True):
+                viol("pixel-value", k + ":after-caller-edit", "after the "
+                     "caller scaled the array of an earlier request in "
+                     f"place, the map {FEATS[k]!r} is {again[k][0].tolist()}"
+                     f" instead of {expected[k][0].tolist()}")
+    except BaseException as e:
+        if isinstance(e, (KeyboardInterrupt, SystemExit, MemoryError)):
+            raise
+        viol("map-raises", type(e).__name__, f"second request raised {e!r}")
     for k, (m, nwarn) in vals.items():
         if m.shape != (ny, nx):
             viol("pixel-value", k, f"map shape {m.shape} != {(ny, nx)}")
